@@ -3,6 +3,7 @@
   python3 -m usa.seedtool import <worktree-dir> <PROP>      copy <dir>/_seed/change*.diff + demos into seeded/<PROP>-sN/
   python3 -m usa.seedtool verify <id>...                    scratch worktree /tmp/sv/wt: demo passes without / fails with the patch; full test-suite passes with it
   python3 -m usa.seedtool detect <id>... [--all-props]      apply to /repo, run the check(s), undo straight afterwards; records which rules fire
+  python3 -m usa.seedtool sdetect <id>... [--all-props]     same on a scratch copy of include/ + source/ (parallel, /repo untouched)
   python3 -m usa.seedtool table                             markdown table for DESIGN.md
 
 Nothing here is a manifest command; /repo is always restored with `git checkout -- .`.
@@ -129,6 +130,45 @@ def cmd_detect(ids, all_props=False):
             sh('git -C /repo checkout -- .')
 
 
+def _detect_scratch_one(args):
+    i, props = args
+    import shutil
+    sd = os.path.join(VERIF, 'out', 'scratch', 'seed-' + i)
+    shutil.rmtree(sd, ignore_errors=True); os.makedirs(sd)
+    try:
+        for d in ('include', 'source'): shutil.copytree(os.path.join('/repo', d), os.path.join(sd, d))
+        rc, out = sh('patch -p1 -s -d %s < %s' % (sd, os.path.join(SEEDED, i, 'patch.diff')))
+        if rc != 0: return i, None, 'patch does not apply: ' + out[-200:]
+        fired = {}
+        for p in props:
+            rc, out = sh('python3 -m usa.check %s --no-write --repo %s' % (p, sd), cwd=VERIF, timeout=1200)
+            rules = sorted(set(re.findall(r'^  (R-[\w-]+) ', out, re.M)))
+            if rc == 1: fired[p] = rules
+            elif rc == 2: fired[p] = ['ANALYSIS-BROKEN'] + rules
+        return i, fired, ''
+    finally:
+        shutil.rmtree(sd, ignore_errors=True)
+
+
+def cmd_detect_scratch(ids, all_props=False, jobs=4):
+    """same as detect, but on a scratch copy of /repo's include/ + source/ with the patch applied (never touches /repo; parallel)"""
+    from concurrent.futures import ThreadPoolExecutor
+    man = json.load(open(os.path.join(VERIF, 'MANIFEST.json')))
+    claimed = [c['property_id'] for c in man['checks']]
+    work = []
+    for i in ids:
+        m = load_meta(i)
+        work.append((i, claimed if all_props else [m['property']] if m['property'] in claimed else []))
+    with ThreadPoolExecutor(max_workers=jobs) as ex:
+        for i, fired, err in ex.map(_detect_scratch_one, work):
+            if fired is None: print(i, err); continue
+            m = load_meta(i)
+            if all_props: m['detected_by_all_props'] = fired
+            else: m['detected_by'] = fired; m['detect_props_run'] = [m['property']]
+            save_meta(i, m)
+            print(i, 'DETECTED' if any(v and v != ['ANALYSIS-BROKEN'] for v in fired.values()) else ('broken' if fired else 'missed'), fired)
+
+
 def cmd_table():
     print('| id | property | files | needs | confirmed | detected by |')
     print('|---|---|---|---|---|---|')
@@ -146,4 +186,5 @@ if __name__ == '__main__':
     if a[0] == 'import': cmd_import(a[1], a[2], a[3] if len(a) > 3 else 's')
     elif a[0] == 'verify': cmd_verify([x for x in a[1:] if not x.startswith('--')], tests='--no-tests' not in a)
     elif a[0] == 'detect': cmd_detect([x for x in a[1:] if not x.startswith('--')], all_props='--all-props' in a)
+    elif a[0] == 'sdetect': cmd_detect_scratch([x for x in a[1:] if not x.startswith('--')], all_props='--all-props' in a)
     elif a[0] == 'table': cmd_table()
